@@ -397,6 +397,9 @@ class ExprFormatted(Expr):
 
     def iterate(self, *, flat: bool = True) -> Iterator[str | Expr]:
         yield "{"
+        if isinstance(self.value, (ExprDict, ExprDictComp, ExprSet, ExprSetComp)):
+            # Two consecutive opening braces would be an escaped brace.
+            yield " "
         yield from _yield(self.value, flat=flat)
         yield "}"
 
